@@ -934,4 +934,266 @@ theorem thermal_der (lead : Gap) (c : Classifier) (g0 : Gap) (laws : List (Strin
 
 end thermal
 
+/-! ## tally cards (`TallyParser`): bins, groups, the total `T` -/
+
+/-- what FS needs (`TallySegmentParser` has no groups) -/
+def reqTallySeg : Prods :=
+  reqIntro ++ reqNumbers ++
+  [("tally", ["introduction", "tally_specification"]),
+   ("tally_specification", ["tally_numbers"]), ("tally_specification", ["tally_numbers", "end_phrase"]),
+   ("end_phrase", ["PARTICLE"]), ("end_phrase", ["PARTICLE", "padding"]),
+   ("tally_numbers", ["number_sequence"]),
+   ("tally_numbers", ["tally_numbers", "padding"]), ("tally_numbers", ["tally_numbers", "tally_numbers"])]
+
+def reqTally : Prods :=
+  reqTallySeg ++
+  [("tally_numbers", ["tally_group"]),
+   ("tally_group", ["(", "number_sequence", ")"]), ("tally_group", ["(", "padding", "number_sequence", ")"])]
+
+theorem reqTallySeg_sub_tally : reqTallySeg ⊆ reqTally := by decide
+theorem reqIntro_sub_tally : reqIntro ⊆ reqTally := by decide
+theorem reqNumbers_sub_tally : reqNumbers ⊆ reqTally := by decide
+theorem reqPadding_sub_tally : reqPadding ⊆ reqTally := by decide
+theorem reqIntro_sub_tallyseg : reqIntro ⊆ reqTallySeg := by decide
+theorem reqNumbers_sub_tallyseg : reqNumbers ⊆ reqTallySeg := by decide
+theorem reqPadding_sub_tallyseg : reqPadding ⊆ reqTallySeg := by decide
+
+section tallyseg
+variable (hP : reqTallySeg ⊆ P)
+include hP
+
+theorem total_der (total : Option (String × Gap)) (h : XCard.totalWF total = true) {w : List String}
+    (hn : Der P "tally_numbers" w) : Der P "tally_specification" (w ++ XCard.totalClasses total) := by
+  have hpad : reqPadding ⊆ P := fun _ h => hP (reqPadding_sub_tallyseg h)
+  cases total with
+  | none =>
+    exact (Der.rule (hP (by decide : ("tally_specification", ["tally_numbers"]) ∈ reqTallySeg)) (.nt hn .nil)).cast
+      (by simp [XCard.totalClasses])
+  | some tg =>
+    obtain ⟨t, g⟩ := tg
+    have he : Der P "end_phrase" ("PARTICLE" :: g.cls) :=
+      phrase_der hpad (hP (by decide)) (hP (by decide)) g (by simpa [XCard.totalWF] using h)
+    exact (Der.rule (hP (by decide : ("tally_specification", ["tally_numbers", "end_phrase"]) ∈ reqTallySeg))
+      (.nt hn (.nt he .nil))).cast (by simp [XCard.totalClasses])
+
+/-- FS cards (`TallySegmentParser`) -/
+theorem segments_der (lead : Gap) (c : Classifier) (g0 : Gap) (es : Entries) (total : Option (String × Gap))
+    (hwf : (XCard.mk lead c g0 (.segments es total)).WF = true) :
+    Der P "tally" (XCard.mk lead c g0 (.segments es total)).classes := by
+  have hin : reqIntro ⊆ P := fun _ h => hP (reqIntro_sub_tallyseg h)
+  have hnum : reqNumbers ⊆ P := fun _ h => hP (reqNumbers_sub_tallyseg h)
+  simp [XCard.WF] at hwf
+  obtain ⟨⟨⟨hl, hg⟩, hc⟩, ⟨⟨hes, hne⟩, _⟩, htot⟩ := hwf
+  have hi := intro_der hin lead c g0 hl hc hg
+  have hs := entries_der hnum es hne hes
+  have hn : Der P "tally_numbers" es.classes :=
+    (Der.rule (hP (by decide : ("tally_numbers", ["number_sequence"]) ∈ reqTallySeg)) (.nt hs .nil)).cast (by simp)
+  have hspec := total_der hP total htot hn
+  exact (Der.rule (hP (by decide : ("tally", ["introduction", "tally_specification"]) ∈ reqTallySeg))
+    (.nt hi (.nt hspec .nil))).cast (by simp [XCard.classes])
+
+end tallyseg
+
+section tally
+variable (hP : reqTally ⊆ P)
+include hP
+
+theorem tallyitem_der (it : TallyItem) (hwf : it.WF = true) : Der P "tally_numbers" it.classes := by
+  have hnum : reqNumbers ⊆ P := fun _ h => hP (reqNumbers_sub_tally h)
+  have hpad : reqPadding ⊆ P := fun _ h => hP (reqPadding_sub_tally h)
+  cases it with
+  | bins es =>
+    simp [TallyItem.WF] at hwf
+    have hs := entries_der hnum es hwf.2 hwf.1
+    exact (Der.rule (hP (by decide : ("tally_numbers", ["number_sequence"]) ∈ reqTally)) (.nt hs .nil)).cast
+      (by simp [TallyItem.classes])
+  | group opened es after =>
+    simp [TallyItem.WF] at hwf
+    obtain ⟨⟨⟨ho, hes⟩, hne⟩, ha⟩ := hwf
+    have hs := entries_der hnum es hne hes
+    have hg : Der P "tally_group" (["("] ++ opened.cls ++ es.classes ++ [")"]) := by
+      by_cases hop : opened = []
+      · subst hop
+        exact (Der.rule (hP (by decide : ("tally_group", ["(", "number_sequence", ")"]) ∈ reqTally))
+          (.tok (.nt hs (.tok .nil)))).cast (by simp [Gap.cls])
+      · have hp := pad_der hpad opened ho hop
+        exact (Der.rule (hP (by decide : ("tally_group", ["(", "padding", "number_sequence", ")"]) ∈ reqTally))
+          (.tok (.nt hp (.nt hs (.tok .nil))))).cast (by simp)
+    have hn : Der P "tally_numbers" (["("] ++ opened.cls ++ es.classes ++ [")"]) :=
+      (Der.rule (hP (by decide : ("tally_numbers", ["tally_group"]) ∈ reqTally)) (.nt hg .nil)).cast (by simp)
+    by_cases haf : after = []
+    · subst haf; simpa [TallyItem.classes, Gap.cls] using hn
+    · have hp := pad_der hpad after ha haf
+      exact (Der.rule (hP (by decide : ("tally_numbers", ["tally_numbers", "padding"]) ∈ reqTally))
+        (.nt hn (.nt hp .nil))).cast (by simp [TallyItem.classes])
+
+theorem tally_der (lead : Gap) (c : Classifier) (g0 : Gap) (items : List TallyItem) (total : Option (String × Gap))
+    (hwf : (XCard.mk lead c g0 (.tally items total)).WF = true) :
+    Der P "tally" (XCard.mk lead c g0 (.tally items total)).classes := by
+  have hin : reqIntro ⊆ P := fun _ h => hP (reqIntro_sub_tally h)
+  simp [XCard.WF] at hwf
+  obtain ⟨⟨⟨hl, hg⟩, hc⟩, ⟨⟨hne, _⟩, hit⟩, htot⟩ := hwf
+  have hi := intro_der hin lead c g0 hl hc hg
+  have hnums : Der P "tally_numbers" (items.flatMap TallyItem.classes) := by
+    cases items with
+    | nil => exact absurd rfl hne
+    | cons a rest =>
+      have ha := tallyitem_der hP a (hit a (by simp))
+      have := leftrec_snoc TallyItem.classes rest a.classes ha (fun b hb =>
+        ⟨"tally_numbers", hP (by decide), tallyitem_der hP b (hit b (by simp [hb]))⟩)
+      simpa using this
+  have hspec := total_der (fun _ h => hP (reqTallySeg_sub_tally h)) total htot hnums
+  exact (Der.rule (hP (by decide : ("tally", ["introduction", "tally_specification"]) ∈ reqTally))
+    (.nt hi (.nt hspec .nil))).cast (by simp [XCard.classes])
+
+end tally
+
+/-! ## the kitchen sink of `DataParser`: a letter followed by numbers (`d1`, `SI1 H 0 1 2`) -/
+
+def reqSink : Prods :=
+  reqNumbers ++
+  [("data", ["number_sequence"]), ("data", ["particle_sequence"]), ("data", ["kitchen_sink"]),
+   ("kitchen_sink", ["kitchen_junk"]), ("kitchen_sink", ["kitchen_sink", "kitchen_junk"]),
+   ("kitchen_junk", ["number_sequence"]), ("kitchen_junk", ["particle_sequence"]),
+   ("particle_sequence", ["particle_phrase"]),
+   ("particle_phrase", ["particle_text"]), ("particle_phrase", ["particle_text", "padding"]),
+   ("particle_text", ["PARTICLE"])]
+
+theorem reqNumbers_sub_sink : reqNumbers ⊆ reqSink := by decide
+theorem reqPadding_sub_sink : reqPadding ⊆ reqSink := by decide
+
+section sink
+variable (hP : reqSink ⊆ P)
+include hP
+
+theorem letter_seq_der (g : Gap) (hg : g.ok = true) : Der P "particle_sequence" ("PARTICLE" :: g.cls) := by
+  have hpad : reqPadding ⊆ P := fun _ h => hP (reqPadding_sub_sink h)
+  have ht : Der P "particle_text" ["PARTICLE"] :=
+    Der.rule (hP (by decide : ("particle_text", ["PARTICLE"]) ∈ reqSink)) (.tok .nil)
+  have hp : Der P "particle_phrase" (["PARTICLE"] ++ g.cls) :=
+    wrap_der hpad (hP (by decide)) (hP (by decide)) ht g hg
+  exact (Der.rule (hP (by decide : ("particle_sequence", ["particle_phrase"]) ∈ reqSink)) (.nt hp .nil)).cast (by simp)
+
+/-- a letter, a gap, then a number sequence: `data` through the kitchen sink -/
+theorem letter_numbers_der (g : Gap) (hg : g.ok = true) {w : List String} (hs : Der P "number_sequence" w) :
+    Der P "data" ("PARTICLE" :: g.cls ++ w) := by
+  have hl := letter_seq_der hP g hg
+  have j1 : Der P "kitchen_junk" ("PARTICLE" :: g.cls) :=
+    (Der.rule (hP (by decide : ("kitchen_junk", ["particle_sequence"]) ∈ reqSink)) (.nt hl .nil)).cast (by simp)
+  have k1 : Der P "kitchen_sink" ("PARTICLE" :: g.cls) :=
+    (Der.rule (hP (by decide : ("kitchen_sink", ["kitchen_junk"]) ∈ reqSink)) (.nt j1 .nil)).cast (by simp)
+  have j2 : Der P "kitchen_junk" w :=
+    (Der.rule (hP (by decide : ("kitchen_junk", ["number_sequence"]) ∈ reqSink)) (.nt hs .nil)).cast (by simp)
+  have k2 : Der P "kitchen_sink" ("PARTICLE" :: g.cls ++ w) :=
+    (Der.rule (hP (by decide : ("kitchen_sink", ["kitchen_sink", "kitchen_junk"]) ∈ reqSink))
+      (.nt k1 (.nt j2 .nil))).cast (by simp)
+  exact (Der.rule (hP (by decide : ("data", ["kitchen_sink"]) ∈ reqSink)) (.nt k2 .nil)).cast (by simp)
+
+end sink
+
+/-! ## SI / SP / SB / DS with an option letter (`DataParser`) -/
+
+def reqLettered : Prods := reqIntro ++ reqSink ++ [("data_input", ["introduction", "data"])]
+
+theorem reqIntro_sub_lettered : reqIntro ⊆ reqLettered := by decide
+theorem reqSink_sub_lettered : reqSink ⊆ reqLettered := by decide
+
+theorem lettered_der (hP : reqLettered ⊆ P) (lead : Gap) (c : Classifier) (g0 : Gap) (l : String) (g : Gap)
+    (es : Entries) (hwf : (XCard.mk lead c g0 (.lettered l g es)).WF = true) :
+    Der P "data_input" (XCard.mk lead c g0 (.lettered l g es)).classes := by
+  have hin : reqIntro ⊆ P := fun _ h => hP (reqIntro_sub_lettered h)
+  have hsk : reqSink ⊆ P := fun _ h => hP (reqSink_sub_lettered h)
+  have hnum : reqNumbers ⊆ P := fun _ h => hsk (reqNumbers_sub_sink h)
+  simp [XCard.WF] at hwf
+  obtain ⟨⟨⟨hl, hg0⟩, hc⟩, ⟨⟨hg, hes⟩, hne⟩, _⟩ := hwf
+  have hi := intro_der hin lead c g0 hl hc hg0
+  have hs := entries_der hnum es hne hes
+  have hd := letter_numbers_der hsk g (req_split hg).1 hs
+  exact (Der.rule (hP (by decide : ("data_input", ["introduction", "data"]) ∈ reqLettered))
+    (.nt hi (.nt hd .nil))).cast (by simp [XCard.classes])
+
+/-! ## SDEF (`ParamOnlyDataParser`) -/
+
+def reqSdef : Prods :=
+  reqIntro ++ reqSink ++
+  [("param_data_input", ["param_introduction"]), ("param_data_input", ["param_introduction", "spec_parameters"]),
+   ("param_introduction", ["classifier_phrase"]), ("param_introduction", ["padding", "classifier_phrase"]),
+   ("spec_parameters", ["spec_parameter"]), ("spec_parameters", ["spec_parameters", "spec_parameter"]),
+   ("spec_parameter", ["spec_classifier", "param_seperator", "data"]),
+   ("spec_classifier", ["spec_data_prefix"]), ("spec_data_prefix", ["KEYWORD"])]
+
+theorem reqIntro_sub_sdef : reqIntro ⊆ reqSdef := by decide
+theorem reqSink_sub_sdef : reqSink ⊆ reqSdef := by decide
+theorem reqClassifier_sub_sdef : reqClassifier ⊆ reqSdef := by decide
+theorem reqPadding_sub_sdef : reqPadding ⊆ reqSdef := by decide
+
+section sdef
+variable (hP : reqSdef ⊆ P)
+include hP
+
+theorem sdefparam_der (p : SdefParam) (hwf : p.WF = true) : Der P "spec_parameter" p.classes := by
+  have hsk : reqSink ⊆ P := fun _ h => hP (reqSink_sub_sdef h)
+  have hcl : reqClassifier ⊆ P := fun _ h => hP (reqClassifier_sub_sdef h)
+  have hnum : reqNumbers ⊆ P := fun _ h => hsk (reqNumbers_sub_sink h)
+  obtain ⟨key, sep, val⟩ := p
+  simp [SdefParam.WF] at hwf
+  obtain ⟨hsep, hval⟩ := hwf
+  have hk : Der P "spec_classifier" ["KEYWORD"] := by
+    have h0 : Der P "spec_data_prefix" ["KEYWORD"] :=
+      Der.rule (hP (by decide : ("spec_data_prefix", ["KEYWORD"]) ∈ reqSdef)) (.tok .nil)
+    exact (Der.rule (hP (by decide : ("spec_classifier", ["spec_data_prefix"]) ∈ reqSdef)) (.nt h0 .nil)).cast (by simp)
+  have hs := sep_der hcl sep hsep
+  have hd : Der P "data" val.classes := by
+    cases val with
+    | nums es =>
+      simp [SdefVal.WF] at hval
+      have := entries_der hnum es hval.2 hval.1
+      exact (Der.rule (hP (by decide : ("data", ["number_sequence"]) ∈ reqSdef)) (.nt this .nil)).cast
+        (by simp [SdefVal.classes])
+    | dist l n after =>
+      simp [SdefVal.WF] at hval
+      have hn : Der P "number_sequence" ("NUMBER" :: after.cls) := by
+        have h1 := number_phrase_der hnum after hval
+        have h2 : Der P "numerical_phrase" ("NUMBER" :: after.cls) :=
+          (Der.rule (hP (by decide : ("numerical_phrase", ["number_phrase"]) ∈ reqSdef)) (.nt h1 .nil)).cast (by simp)
+        exact (Der.rule (hP (by decide : ("number_sequence", ["numerical_phrase"]) ∈ reqSdef)) (.nt h2 .nil)).cast
+          (by simp)
+      have := letter_numbers_der hsk [] (by decide) hn
+      simpa [Gap.cls, SdefVal.classes] using this
+    | particle w after =>
+      simp [SdefVal.WF] at hval
+      have := letter_seq_der hsk after hval
+      exact (Der.rule (hP (by decide : ("data", ["particle_sequence"]) ∈ reqSdef)) (.nt this .nil)).cast
+        (by simp [SdefVal.classes])
+  exact (Der.rule (hP (by decide : ("spec_parameter", ["spec_classifier", "param_seperator", "data"]) ∈ reqSdef))
+    (.nt hk (.nt hs (.nt hd .nil)))).cast (by simp [SdefParam.classes])
+
+theorem sdef_der (lead : Gap) (c : Classifier) (g0 : Gap) (ps : List SdefParam)
+    (hwf : (XCard.mk lead c g0 (.sdef ps)).WF = true) :
+    Der P "param_data_input" (XCard.mk lead c g0 (.sdef ps)).classes := by
+  have hcl : reqClassifier ⊆ P := fun _ h => hP (reqClassifier_sub_sdef h)
+  have hpad : reqPadding ⊆ P := fun _ h => hP (reqPadding_sub_sdef h)
+  simp [XCard.WF] at hwf
+  obtain ⟨⟨⟨hl, hg0⟩, hc⟩, hps, _⟩ := hwf
+  have hcp : Der P "classifier_phrase" (c.classes ++ g0.cls) :=
+    wrap_der hpad (hP (by decide)) (hP (by decide)) (classifier_der hcl c hc) g0 hg0
+  have hi : Der P "param_introduction" (lead.cls ++ c.classes ++ g0.cls) := by
+    by_cases hle : lead = []
+    · exact (Der.rule (hP (by decide : ("param_introduction", ["classifier_phrase"]) ∈ reqSdef)) (.nt hcp .nil)).cast
+        (by simp [hle, Gap.cls])
+    · have hp := pad_der hpad lead hl hle
+      exact (Der.rule (hP (by decide : ("param_introduction", ["padding", "classifier_phrase"]) ∈ reqSdef))
+        (.nt hp (.nt hcp .nil))).cast (by simp)
+  by_cases hpe : ps = []
+  · subst hpe
+    exact (Der.rule (hP (by decide : ("param_data_input", ["param_introduction"]) ∈ reqSdef)) (.nt hi .nil)).cast
+      (by simp [XCard.classes])
+  · have hpar : Der P "spec_parameters" (ps.flatMap SdefParam.classes) :=
+      leftrec SdefParam.classes ps hpe (fun p hm =>
+        ⟨"spec_parameter", hP (by decide), hP (by decide), sdefparam_der hP p (hps p hm)⟩)
+    exact (Der.rule (hP (by decide : ("param_data_input", ["param_introduction", "spec_parameters"]) ∈ reqSdef))
+      (.nt hi (.nt hpar .nil))).cast (by simp [XCard.classes])
+
+end sdef
+
 end MontePyVerif.Cfg
